@@ -15,6 +15,7 @@ import (
 	"pgregory.net/rapid"
 
 	"github.com/drand/drand/v2/internal/chain"
+	"github.com/drand/drand/v2/internal/dkg"
 	fx "github.com/drand/drand/v2/internal/veriffx"
 	verifsecretscan "github.com/drand/drand/v2/internal/verifsecretscan"
 	stats "github.com/drand/drand/v2/internal/verifstats"
@@ -155,4 +156,160 @@ func TestVerifC15Daemon(t *testing.T) {
 		}
 		rec.Case(desc, true, "daemon", fmt.Sprintf("umask=%o", umask))
 	})
+}
+
+
+// TestVerifC15FaultLogs: the error paths of a key generation. Three real daemons run a DKG (and optionally a resharing) while
+// on one of them a persistence fault is planted: the path of the share file, or of the group file, is occupied by a directory,
+// so that storing the DKG output fails on that node (the sandbox runs as root: permission bits cannot provoke the failure).
+// Every log line of every node (debug level), the error texts of the operator commands and the DKG status answers are scanned
+// for the long-term scalars and for the key shares recorded in each node's dkg.db.
+func TestVerifC15FaultLogs(t *testing.T) {
+	rec := stats.Open(t, "C15")
+	rapid.Check(t, func(rt *rapid.T) {
+		seed := rapid.Uint64Range(1, 1<<32).Draw(rt, "keyseed")
+		scheme := rapid.SampledFrom(fx.SchemeNames).Draw(rt, "scheme")
+		fault := rapid.SampledFrom([]string{"share-path-is-a-directory", "group-path-is-a-directory", "share-path-is-a-directory", "none"}).Draw(rt, "fault")
+		stage := rapid.SampledFrom([]string{"first-dkg", "resharing"}).Draw(rt, "stage")
+		victim := rapid.IntRange(0, 2).Draw(rt, "victim")
+		desc := fmt.Sprintf("faultlogs %s fault=%s at %s on node %d seed=%d", scheme, fault, stage, victim, seed)
+		wd := time.AfterFunc(8*time.Minute, func() {
+			fmt.Fprintf(os.Stderr, "HARNESS-ABORT: C15 fault case still running after 8 minutes (%s)\n", desc)
+			os.Exit(3)
+		})
+		defer wd.Stop()
+		cClusterKeepLogs = true
+		c, err := newCCluster(3, seed, scheme)
+		cClusterKeepLogs = false
+		if err != nil {
+			rt.Fatalf("harness: cluster: %v", err)
+		}
+		defer c.close()
+		fail := func(key, detail string) {
+			rec.Violation(rt, key, detail+" || case: "+desc, map[string]any{"case": desc})
+		}
+		plant := func() {
+			if fault == "none" {
+				return
+			}
+			dir := filepath.Join(c.nodes[victim].dir, "multibeacon", "default", "groups")
+			name := "dist_key.private"
+			if fault == "group-path-is-a-directory" {
+				name = "drand_group.toml"
+			}
+			_ = os.MkdirAll(dir, 0o700)
+			_ = os.Remove(filepath.Join(dir, name))
+			if err := os.Mkdir(filepath.Join(dir, name), 0o700); err != nil {
+				rt.Fatalf("harness: cannot plant the fault: %v", err)
+			}
+		}
+		var cmdErrs []string
+		note := func(err error) {
+			if err != nil {
+				cmdErrs = append(cmdErrs, err.Error())
+			}
+		}
+		if stage == "first-dkg" {
+			plant()
+		}
+		note(c.firstDKG(2))
+		if stage == "resharing" {
+			c.rounds(2)
+			plant()
+			note(c.reshare(2))
+		}
+		time.Sleep(300 * time.Millisecond) // let the beacon side of the completion (and its error logging) happen
+		c.rounds(c.headOf(c.nodes[(victim+1)%3]) + 1)
+		// secrets: long-term scalars and every share any dkg.db records
+		var secrets []*verifsecretscan.Secret
+		shares := 0
+		for i, nd := range c.nodes {
+			kb, _ := nd.pair.Key.MarshalBinary()
+			secrets = append(secrets, verifsecretscan.New(fmt.Sprintf("long-term private key of node %d", i), kb, nd.pair.Key.String()))
+			st, err := nd.dd.DKGStatus(context.Background(), &pdkg.DKGStatusRequest{BeaconID: "default"})
+			if err == nil {
+				b, _ := proto.Marshal(st)
+				defer func(i int, b []byte) {
+					if who := verifsecretscan.Find(b, secrets); who != "" {
+						fail("C15/secret-in-response", fmt.Sprintf("the DKG status answer of node %d contains the %s", i, who))
+					}
+				}(i, b)
+			}
+		}
+		for i, nd := range c.nodes {
+			data, err := os.ReadFile(filepath.Join(nd.dir, "dkg.db"))
+			if err != nil {
+				continue
+			}
+			_ = data
+			store, err := dkgNewStoreForScan(nd.dir)
+			if err != nil {
+				continue
+			}
+			for _, sh := range store {
+				secrets = append(secrets, verifsecretscan.New(fmt.Sprintf("key share of node %d", i), sh.raw, sh.str))
+				shares++
+			}
+		}
+		if shares == 0 {
+			rt.Fatalf("harness: no share found in any dkg.db (the key generation did not complete): %s / command errors %v", desc, cmdErrs)
+		}
+		scanned, faultLogged := 0, false
+		for i, nd := range c.nodes {
+			for _, line := range nd.log.Root().Lines() {
+				scanned++
+				if i == victim && (strings.Contains(line, "is a directory") || strings.Contains(line, "can't save")) {
+					faultLogged = true
+				}
+				if who := verifsecretscan.Find([]byte(line), secrets); who != "" {
+					fail("C15/secret-in-log", fmt.Sprintf("a log line of node %d contains the %s: %s", i, who, trunc(line, 400)))
+				}
+			}
+		}
+		for _, e := range cmdErrs {
+			scanned++
+			if who := verifsecretscan.Find([]byte(e), secrets); who != "" {
+				fail("C15/secret-in-response", fmt.Sprintf("the error text of an operator command contains the %s: %s", who, trunc(e, 400)))
+			}
+		}
+		rec.LabelN("artefacts-scanned", int64(scanned))
+		labels := []string{"fault-logs", "fault/" + fault, "stage/" + stage, fmt.Sprintf("fault-surfaced-in-log=%v", faultLogged)}
+		rec.Case(desc, fault != "none", labels...)
+	})
+}
+
+type scanShare struct {
+	raw []byte
+	str string
+}
+
+// dkgNewStoreForScan reads the shares recorded in a node's dkg.db through a copy of the file (the daemon holds the lock on the original).
+func dkgNewStoreForScan(nodeDir string) ([]scanShare, error) {
+	tmp, err := os.MkdirTemp(scratchBase(), "c15db")
+	if err != nil {
+		return nil, err
+	}
+	defer os.RemoveAll(tmp)
+	data, err := os.ReadFile(filepath.Join(nodeDir, "dkg.db"))
+	if err != nil {
+		return nil, err
+	}
+	if err := os.WriteFile(filepath.Join(tmp, "dkg.db"), data, 0o600); err != nil {
+		return nil, err
+	}
+	st, err := dkg.NewDKGStore(tmp)
+	if err != nil {
+		return nil, err
+	}
+	defer st.Close()
+	var out []scanShare
+	for _, get := range []func(string) (*dkg.DBState, error){st.GetFinished, st.GetCurrent} {
+		s, err := get("default")
+		if err != nil || s == nil || s.KeyShare == nil {
+			continue
+		}
+		raw, _ := s.KeyShare.Share.V.MarshalBinary()
+		out = append(out, scanShare{raw, s.KeyShare.Share.V.String()})
+	}
+	return out, nil
 }
